@@ -72,6 +72,16 @@ where
         if let Some(vi) = compare_pub::<K>(&g, &m, &all, &mut fnv, &mut st) {
             out.violation = Some((vi.class, format!("single slice of {total} bytes: {}", vi.detail)));
         }
+        // the one-call convenience on the same slice (round 9, seed C11-25): same answer as the generator it wraps
+        if out.violation.is_none() {
+            use tlsh::GeneratorType;
+            let easy = crate::kinds::render::<K::H>(&K::hash_buf(&big));
+            let direct = crate::kinds::render::<K::H>(&g.finalize());
+            out.checks += 1;
+            if easy != direct {
+                out.violation = Some(("hash-buf-differs-from-generator-on-huge-slice".into(), format!("single slice of {total} bytes: hash_buf_for gives {easy}, update + finalize gives {direct}")));
+            }
+        }
         return out;
     }
     // chunked real stream
